@@ -15,5 +15,5 @@ Extraction "model.ml" conv_anchor
   ZbddVars.ztaut_chain ZbddVars.zadd_vars ZbddVars.f_powerset
   LevelSwap.level_swap LevelSwap.set_var_order_model SortOrder.sort_order SortOrder.bubble_sort
   LevelSwapC.level_swap_c LevelSwapC.set_var_order_model_c
-  BuildCanon.build_kind BuildCanon.lvl_fun BuildCanon.canonical_count BuildCanon.cfun_of
+  BuildCanon.build_kind BuildCanon.lvl_fun BuildCanon.canonical_count BuildCanon.cfun_of BuildCanon.bool_kind_ok_b
   Table.mkSnap Table.mkNode Table.mkEdge Table.nlevels Table.edge_eqb.
